@@ -116,17 +116,28 @@ class BlockDiagLinearOperator(BlockLinearOperator, metaclass=_MetaBlockDiagLinea
         other = other.reshape(*shape)
         return other
 
+    @staticmethod
+    def _square_blocks(root):
+        # A low-rank (Lanczos) root has fewer columns than rows. The blocks of a BlockDiagLinearOperator have to be
+        # square, so pad each block with zero columns (which does not change root @ root.mT).
+        num_rows, num_cols = root.shape[-2:]
+        if num_cols >= num_rows:
+            return root
+        root = root.to_dense() if isinstance(root, LinearOperator) else root
+        padding = torch.zeros(*root.shape[:-1], num_rows - num_cols, dtype=root.dtype, device=root.device)
+        return torch.cat([root, padding], dim=-1)
+
     def _root_decomposition(
         self: Float[LinearOperator, "... N N"]
     ) -> Union[Float[torch.Tensor, "... N N"], Float[LinearOperator, "... N N"]]:
-        return self.__class__(self.base_linear_op._root_decomposition())
+        return self.__class__(self._square_blocks(self.base_linear_op._root_decomposition()))
 
     def _root_inv_decomposition(
         self: Float[LinearOperator, "*batch N N"],
         initial_vectors: Optional[torch.Tensor] = None,
         test_vectors: Optional[torch.Tensor] = None,
     ) -> Union[Float[LinearOperator, "... N N"], Float[Tensor, "... N N"]]:
-        return self.__class__(self.base_linear_op._root_inv_decomposition(initial_vectors))
+        return self.__class__(self._square_blocks(self.base_linear_op._root_inv_decomposition(initial_vectors)))
 
     def _size(self) -> torch.Size:
         shape = list(self.base_linear_op.shape)
